@@ -105,7 +105,30 @@ def w_unit_names(ctx):
     return (not bad, 'every configured unit has >= 1 name' if not bad else 'units without names: %s' % bad)
 
 
+def w_format_positions(ctx):
+    """every position format_number takes in a rendering was measured on that same rendering, and the walk of the function over
+    symbolic renderings (C07 N9, E6c) never runs past the end of a rendering: no unwrap of a missing character in any of the
+    tabulated shapes (integer part 1..13 digits x 0/1/2/5 fraction digits x sign x flags)"""
+    import collections
+    from ..report import Ctx
+    from .C07 import n9_assembly_table
+    sub = Ctx('C07', ctx.tier, ctx.facts, ctx.cg, ctx.config, ctx.repo, ctx.cfg_name)
+    try:
+        n9_assembly_table(sub)
+    except Exception as ex:
+        return (False, 'the assembly walk of format_number failed: %s' % ex)
+    if sub.findings:
+        return (False, 'the assembly walk of format_number reports %s' % sub.findings[0]['key'])
+    pos = getattr(sub, '_c07_positions', None)
+    if pos is None:
+        return (False, 'the assembly of format_number could not be tabulated')
+    if pos[0]:
+        return (False, 'positions in one rendering are derived from the length of another: %s' % sorted(pos[0]))
+    return (True, 'positions are measured on the rendering they are taken in (%d walks)' % sub.rules['N9'].instances)
+
+
 WITNESSES = {
+    'format-positions-own-rendering': w_format_positions,
     'patterns-nonempty': w_patterns_nonempty,
     'matcher-counter-protocol': w_matcher_counter,
     'current-line-callers': w_current_line_callers,
